@@ -23,7 +23,8 @@ HISTORY_NOTE["C02"] += _S
 _I = (" Issuance model (Model/Issue.lean): the options of delegation.Delegate / invocation.Invoke fold into a configuration (a later option of a kind replaces"
       " the earlier; WithExpiration and WithNoExpiration replace each other) that decides which optional fields are written: theorems last_noexp / last_exp, fold_swap"
       " (options of different kinds commute), apply_replace, nbf_written_iff (written iff not 0, negative values included), default_exp, issued_window (the validator"
-      " model's window predicates on the issued fields). Tie: for tokens issued with option lists (given twice, in both orders, bounds at 0 / negative / beyond 2^53)"
+      " model's window predicates on the issued fields), issued_readback / issued_bytes_window (options -> bytes -> decoded fields: the window read from the root block is the"
+      " window the options describe). Tie: for tokens issued with option lists (given twice, in both orders, bounds at 0 / negative / beyond 2^53)"
       " the bytes the model writes from the OPTIONS equal the root block (op wire, item kind issued).")
 HISTORY_NOTE["C03"] += _I
 HISTORY_NOTE["C18"] = _I
@@ -80,7 +81,7 @@ PROPS = {
         "manifest": {"text": "Theorems isExpired_spec / isTooEarly_spec (exactly exp <= now, resp. nbf set and now <= nbf), C03_noexp, C03_inside (strictly inside the window is never rejected for time reasons, by either predicate), C03_no_spurious (validate never answers expired/too-early for an in-window token), C03_window (every delegation of a returned authorization, at any depth, is inside its window at the validation second) and C03_attestation_window (so is every delegation of an accepted session attestation); over time: C03_expired_mono, C03_tooEarly_anti, C03_window_convex (the seconds at which a token is in its window form an interval) and C03_window_exact (exactly nbf < now < exp). Correspondence without a clock hook: each case fixes one position (invocation, proof at any depth, attestation) to one of the 6x6 boundary combinations relative to the wall-clock second T read just before validation; the sample is kept only if the clock still reads T afterwards; the model is evaluated with now = T.", "design_ref": "5.3", "note": VALIDATOR_NOTE + "; wall clock: a sample is discarded when the second ticks during validation"},
         "obligations": ob("UcantoModel.Props.C03", "V.isExpired_spec", "V.isTooEarly_spec", "V.C03_noexp", "V.C03_inside", "V.C03_no_spurious", "V.C03_window", "V.C03_attestation_window",
                           "V.C03_expired_mono", "V.C03_tooEarly_anti", "V.C03_window_convex", "V.C03_window_exact")
-                       + ob("UcantoModel.Props.Issue", "Issue.last_noexp", "Issue.last_exp", "Issue.fold_swap", "Issue.apply_replace", "Issue.nbf_written_iff", "Issue.default_exp", "Issue.issued_window"),
+                       + ob("UcantoModel.Props.Issue", "Issue.last_noexp", "Issue.last_exp", "Issue.fold_swap", "Issue.apply_replace", "Issue.nbf_written_iff", "Issue.default_exp", "Issue.issued_window") + ob("UcantoModel.Props.IssueReadback", "Issue.issued_readback", "Issue.issued_bytes_window", "Issue.sample_wf"),
         "rule": "valid worlds (depth 0-4, half with a session); one position x expiration in {none, far past, T-1, T, T+1, far} x not-before in {unset, far past, T-1, T, T+1, far}, T = wall-clock second of validation (bracketed). every case is non-trivial; distinct: hash of the concrete world", "trusted_base": VALIDATOR_TRUSTED,
     },
     "C04": {
@@ -133,7 +134,7 @@ PROPS = {
         "level": "translation_validation",
         "manifest": {"text": "Translation validation of the format the stored artifacts were written under, plus proof that the format reads what it writes. (1) A committed corpus (corpus/c18/recorded.jsonl: 336 deterministic issuance programs - tokens over every option combination x Ed25519 / RSA / wrapped keys x caveat shapes, nested delegation worlds with inline and link-only proofs and sessions, receipts, key and DID strings - with the bytes, CIDs, signatures, archives, delegation strings and requests they produced; identical to what the pinned tree produces wherever the pinned tree can run the program) is re-executed on the current tree and compared byte for byte, and every recorded artifact is parsed, extracted, decoded and verified with the current tree. (2) The recorded artifacts are also read by the Lean format model (DID strings/bytes, signature framing, Ed25519 key layout, CAR archives with SHA-256), which must agree. (3) Theorems: wire_constants_unchanged (the multicodec tags, version strings, schema keys, media type and header constants extracted from the Go source on this run by go/ast are the UCAN 0.9.1 / ucanto ones: `by decide` on regenerated definitions), model_constants, readable (signature framing, key layout, varints round trip; only blocks hashing to their link leave an archive).", "design_ref": "5.18", "note": "that today's Go equals the recorded past is an empirical byte comparison over the corpus, not a theorem; Lean kernel; constants extractor harness/facts.go; DAG-CBOR / DAG-JSON encoders are compared through their outputs only", "technique": "recorded-corpus byte comparison + Lean format model reading the recorded artifacts + kernel-checked constants table regenerated from source"},
         "obligations": ob("UcantoModel.Props.C18", "C18.wire_constants_unchanged", "C18.model_constants", "C18.readable")
-                       + ob("UcantoModel.Props.Issue", "Issue.last_noexp", "Issue.last_exp", "Issue.fold_swap", "Issue.apply_replace", "Issue.nbf_written_iff", "Issue.default_exp", "Issue.issued_window")
+                       + ob("UcantoModel.Props.Issue", "Issue.last_noexp", "Issue.last_exp", "Issue.fold_swap", "Issue.apply_replace", "Issue.nbf_written_iff", "Issue.default_exp", "Issue.issued_window") + ob("UcantoModel.Props.IssueReadback", "Issue.issued_readback", "Issue.issued_bytes_window", "Issue.sample_wf")
                        + ob("UcantoModel.Lemmas.CborRoundtrip", "Cbor.decodeTop_encode", "Cbor.encode_injective")
                        + ob("UcantoModel.Props.C13Archive", "Archive.C13_archive_roundtrip")
                        + ob("UcantoModel.Props.WireReadback", "Wire.fieldsOf_tokenVal", "Wire.token_readback", "Wire.tokenBytes_injective", "Wire.sampleToken_wf"),
@@ -198,7 +199,7 @@ PROPS = {
         "manifest": {"text": "C12_roundtrip (any roots and any sequence of well-formed blocks - duplicates, CIDv0/v1, identity or hashed - decode to exactly those roots and blocks with a clean end), C12_version, C12_truncated (a cut inside any section yields exactly the complete sections before it and then an error, never a clean shorter archive), C12_truncated_header, C12_cut_at_boundary. Theorems over all byte strings and any hash table H: C12_integrity / C12_integrity_decode (every block the decoder delivers - from valid, corrupted, truncated, spliced or arbitrary input - parses as a CID with nothing after it whose own multihash matches the block's bytes), C12_mismatch_is_error (a section whose bytes do not match its CID yields an error item, never a block), next_none_iff (the archive can only end cleanly on a section boundary), parseCid_split, and the varint round trips readStd_encode / readMf_encode (all n below 2^64 / 2^63). Correspondence at byte level: the Lean model re-encodes every generated archive (bytes must equal car.Encode's) and decodes every truncation point and every single-byte corruption (xor 01, 80, ff at every position) of it, plus splices and arbitrary inputs; go-car's CBOR header parser is modelled for the canonical header form only (elsewhere the model abstains on the header and still predicts the blocks). Independent oracle in the harness: every delivered block is re-hashed against its own CID, a truncation off a section boundary must produce an error.", "design_ref": "5.12", "note": "trusted: Lean kernel; hand-written model of car.Decode/Encode, LdRead/ReadNode, CidFromReader, Prefix.Sum (Model/Car.lean, Model/Varint.lean); SHA-256 is executable Lean validated against Go on every archive, other registered hash functions are known to the model only by their code (a placeholder digest), go-car's header CBOR decoder is modelled for the canonical form only"},
         "obligations": ob("UcantoModel.Props.C12", "Car.C12_integrity", "Car.C12_integrity_decode", "Car.C12_mismatch_is_error", "Car.next_none_iff", "Car.parseCid_split", "Car.next_block_valid")
                        + ob("UcantoModel.Props.C12Roundtrip", "Car.C12_roundtrip", "Car.C12_version", "Car.next_section", "Car.blocks_sections", "Car.decodeHeader_encodeHeader", "Car.readCborHead_cborHead")
-                       + ob("UcantoModel.Props.C12Trunc", "Car.C12_truncated", "Car.C12_cut_at_boundary", "Car.C12_truncated_header", "Car.next_truncated", "Car.blocks_truncated", "Car.readStd_trunc", "Car.C12_oversize_is_error", "Car.C12_blocks_stop_at_oversize")
+                       + ob("UcantoModel.Props.C12Trunc", "Car.C12_truncated", "Car.C12_cut_at_boundary", "Car.C12_truncated_header", "Car.next_truncated", "Car.blocks_truncated", "Car.readStd_trunc", "Car.C12_oversize_is_error", "Car.C12_blocks_stop_at_oversize", "Car.C12_zero_section_is_error", "Car.C12_blocks_stop_at_zero")
                        + ob("UcantoModel.Lemmas.VarintLemmas", "Varint.readStd_encode", "Varint.readMf_encode", "Varint.readMf_suffix", "Varint.readStd_suffix"),
         "mismatch_is_violation": False,
         "rule": "archives: 0-3 roots, 0-6 blocks (quick; 0-24 thorough) of 0-320 bytes with CIDv1 raw/dag-cbor/multi-byte codec, CIDv0, identity, truncated digests, duplicate CIDs; per archive one round-trip case, one case holding the decode outcome at every truncation point, three cases holding the outcome of every single-byte corruption; plus splices / double corruptions / garbage. non-trivial: archive with at least one block / non-empty input. distinct: hash of (op,args)",
